@@ -811,6 +811,11 @@ def random_project2(rng: random.Random) -> Dict[str, Any]:
             mods[pi - 1]["ops"] = ops
             mods[pi - 1]["hasAll"] = True
             mods[pi - 1]["all"] = sorted(seen)
+    # how each __all__ is spelled: the spellings pydoctor reads in full (the others are family T17 and its open findings)
+    for m in mods:
+        if m["hasAll"]:
+            m["allform"] = rng.choice(["literal", "literal", "top", "tuple", "twice"])
+            m["allsplit"] = min(1, len(m["all"])) if m["allform"] == "twice" else len(m["all"])
     p = project(mods, "RND2")
     from . import projects as P
     if cyclic or P.has_import_cycle(p):       # e.g. a package __init__ importing from a sub-module that imports a user of the package
